@@ -229,6 +229,32 @@ def run_alignfn(ctx) -> RuleResult:
                                        derivation=trace, construct=f"{name}: slot update"))
         if n_ret == 0:
             raise AnalysisError(f"{name}: no return path")
+    # align_exponents rebuilds *every* operand (fresh, C-contiguous constructor results): consumers read
+    # ``.values`` of its results, which re-wraps the raw buffer and ignores the strides of a view; the
+    # interpreter's OWNDATA pruning relies on the same summary.
+    func = ctx.repo.function(modname, "align_exponents")
+    n_iter = 0
+    for path in ctx.paths_auto(module, func):
+        current = None
+        for step in path:
+            if step.kind == "iter" and isinstance(step.node, ast.For) and "enumerate(" in U(step.node.iter):
+                if current is not None and not current[1]:
+                    _report_skip(result, module, current[0], path)
+                current = [step, False]
+                n_iter += 1
+            elif step.kind == "loopexit" and current is not None and step.node is current[0].node:
+                if not current[1]:
+                    _report_skip(result, module, current[0], path)
+                current = None
+            elif current is not None and step.kind == "stmt" and isinstance(step.node, ast.Assign):
+                target = step.node.targets[0]
+                if isinstance(target, ast.Subscript) and isinstance(step.node.value, ast.Call) \
+                        and "from_attributes" in U(step.node.value.func):
+                    current[1] = True
+    result.ob("align_exponents rebuilds every operand on every path", not any(
+        f.construct == "align_exponents: operand not rebuilt" for f in result.findings), module.loc(func), f"{n_iter} iterations examined")
+    if n_iter == 0:
+        raise AnalysisError("align_exponents: rebuild loop not recognised")
     # the union ranges over all arguments
     checks = (
         ("align_exponents", "numpy.vstack", "exponents"),
@@ -284,6 +310,15 @@ def run_alignfn(ctx) -> RuleResult:
                                f"align_polynomials returns {text[:80]}"))
     result.floor = 10
     return result
+
+
+def _report_skip(result, module, iter_step, path):
+    result.add(Finding(
+        "R-ALIGNFN", module, "align_exponents", iter_step.node,
+        "an iteration of the rebuild loop leaves the operand as it is (no from_attributes): align_exponents "
+        "may then return the caller's object or a strided view, whose '.values' re-wraps the raw buffer ignoring "
+        "strides - consumers combine elements at the wrong positions", derivation=describe_path(path),
+        construct="align_exponents: operand not rebuilt"))
 
 
 def _strip_call(expr):
